@@ -342,6 +342,121 @@ def duplicates_rule(ctx):
         r.ok("__Solver_2 does not add one multiplier row per raw Dirichlet entry")
 
 
+class RecMat:
+    """records A[rows, cols] = value stores of the bordered Lagrange system"""
+
+    _xeval_open = True
+
+    def __init__(self, alpha):
+        self.store = {}
+        self.data = SimpleNamespace(max=lambda: alpha)
+
+    def tolil(self):
+        return self
+
+    tocsr = tolil
+
+    @staticmethod
+    def _lst(k):
+        from ..xarray import XArray
+
+        if isinstance(k, XArray):
+            return [int(x) for x in k.data]
+        if isinstance(k, (list, tuple)):
+            return [int(x) for x in k]
+        return [int(k)]
+
+    def __setitem__(self, key, value):
+        from ..xarray import XArray
+
+        if not isinstance(key, tuple):
+            key = (key, 0)
+        rows, cols = self._lst(key[0]), self._lst(key[1])
+        vals = list(value.data) if isinstance(value, XArray) else None
+        if len(rows) == len(cols) and len(rows) > 1:
+            pairs = list(zip(rows, cols))
+        elif len(rows) == 1:
+            pairs = [(rows[0], c) for c in cols]
+        elif len(cols) == 1:
+            pairs = [(r_, cols[0]) for r_ in rows]
+        else:
+            raise AnalysisError("bordered-system store with incompatible index lists")
+        for k, pq in enumerate(pairs):
+            self.store[pq] = vals[k] if vals is not None and len(vals) == len(pairs) else (vals[0] if vals else value)
+
+
+def lagrange_rule(ctx):
+    """R4.7: the bordered Lagrange system scales each multiplier row, its symmetric column and its
+    right-hand side by the same factor, so the multiplier rows state  x_d = value  and  sum c_j x_j = value."""
+    from ..alg import Poly, is_zero
+    from ..xarray import XArray
+
+    repo = ctx.repo
+    r = ctx.rule("R4.7", "Lagrange-multiplier system: every multiplier row, its symmetric column and its right-hand side carry the same scale factor (rows state x_d = value, sum_j c_j x_j = value)", min_instances=2)
+    mod = repo.module(SOLV)
+    f = mod.functions["__Solver_2"]
+    alpha = Poly.var("alpha")
+    A, b = RecMat(alpha), RecMat(alpha)
+    size = 8
+    dd = [3, 5]
+    vv = [Poly.var("v0"), Poly.var("v1")]
+    lag = SimpleNamespace(dofs=XArray((2,), [1, 2]), dofsValues=XArray((1,), [Poly.var("c0")]), lagrangeCoefs=XArray((2,), [Poly.var("l0"), Poly.var("l1")]))
+    simu = SimpleNamespace(
+        mesh=SimpleNamespace(Nn=4), Get_dof_n=lambda pt=None: 2,
+        _Solver_Apply_Neumann=lambda pt: b, _Solver_Apply_Dirichlet=lambda pt, bb, res: (A, Opaque("x")),
+        Bc_dofs_Dirichlet=lambda pt=None: XArray((2,), dd), Bc_values_Dirichlet=lambda pt=None: XArray((2,), vv),
+        Bc_Lagrange=[lag], Get_x0=lambda pt=None: XArray((size,), [0] * size), _verbosity=False,
+    )
+    I = Interp(repo, extra_builtins={"MPI_SIZE": 1, "Tic": lambda *a, **k: Sink()})
+
+    def hook(fn, args, kwargs):
+        from .. import xeval
+
+        if isinstance(fn, FuncInfo) and fn.name == "_Solve_Axb":
+            return XArray((size + 3,), [Poly.var(f"x{i}") for i in range(size + 3)])
+        if isinstance(fn, xeval._NpAttr) and fn.path == "append":
+            return XArray.from_nested(list(XArray.from_nested(args[0]).data) + list(XArray.from_nested(args[1]).data))
+        return NotImplemented
+
+    I.call_hook = hook
+    r.instance(fn=f.qualname)
+    I.call_function(f, [simu, Opaque("pt")])
+    bad = None
+    for k, d in enumerate(dd):
+        row = size + k
+        arc, acr, rhs = A.store.get((row, d)), A.store.get((d, row)), b.store.get((row, 0))
+        if arc is None or acr is None or rhs is None:
+            bad = f"Dirichlet multiplier row {k}: missing entries"
+        elif not is_zero(arc - acr):
+            bad = f"Dirichlet multiplier row {k}: A[row, dof] = {arc!r} but A[dof, row] = {acr!r} (not symmetric)"
+        elif not is_zero(rhs - arc * vv[k]):
+            bad = f"Dirichlet multiplier row {k}: right-hand side {rhs!r} is not (row coefficient {arc!r}) x (prescribed value {vv[k]!r}): the row enforces a scaled value"
+    if bad:
+        r.fail(f.qualname, "dirichlet-rows", f.file, f.lineno, "__Solver_2", bad)
+    else:
+        r.ok("Dirichlet multiplier rows: A[row,d] = A[d,row] = s, b[row] = s * value")
+    r.instance(fn=f.qualname)
+    row = size + len(dd)
+    bad = None
+    coefs = [Poly.var("l0"), Poly.var("l1")]
+    rhs = b.store.get((row, 0))
+    scale = None
+    for j, dj in enumerate([1, 2]):
+        a1, a2 = A.store.get((row, dj)), A.store.get((dj, row))
+        if a1 is None or a2 is None or not is_zero(a1 - a2):
+            bad = f"connection row: entries for dof {dj} missing or not symmetric"
+            break
+        # a1 = s * l_j : the scale must be the same for every j and for the right-hand side
+        if not is_zero(a1 * coefs[0] - (A.store.get((row, 1)) or 0) * coefs[j]):
+            bad = f"connection row: coefficient of dof {dj} is not (common scale) x l_{j}"
+    if bad is None and (rhs is None or not is_zero(rhs * coefs[0] - A.store[(row, 1)] * Poly.var("c0"))):
+        bad = f"connection row: right-hand side {rhs!r} is not (the row's scale) x (condition value c0)"
+    if bad:
+        r.fail(f.qualname, "lagrange-rows", f.file, f.lineno, "__Solver_2", bad)
+    else:
+        r.ok("connection rows: A[i, dofs] = A[dofs, i] = s * coefs, b[i] = s * value")
+
+
 def orphan_rule(ctx):
     repo = ctx.repo
     r = ctx.rule("R4.4", "orphan-node diagonal: every return of __Solver_Get_Dirichlet_A_x is preceded by the orphan block on all paths", min_instances=1)
@@ -445,6 +560,7 @@ def run(ctx):
     elimination_rule(ctx)
     complement_rule(ctx)
     duplicates_rule(ctx)
+    lagrange_rule(ctx)
     orphan_rule(ctx)
     dispatch_rule(ctx)
     incremental_rule(ctx)
